@@ -59,3 +59,6 @@ reg("C12", "model_checking", "explicit-state exploration of the real HTTP/2 conn
 reg("C14", "fault_enumeration", "fault-position and peer-event enumeration with a per-token request counter in the independent peers (sequential + virtual-loop worlds)",
     "Every op x fault kind per connection type; concurrent requests with one fault anywhere (cold and warm multiplexed HTTP/2); HTTP/1.1-fallback races; GOAWAY with every relevant last-stream-id and RST_STREAM at every point: a token may be seen twice only for a stream above a GOAWAY last-stream-id, and no new stream may follow a GOAWAY the client has read.",
     _CONC_NOTE, "DESIGN.md 5 C14")
+reg("C13", "model_checking", "window-accounting oracle in an independent frame-level peer: exhaustive size/window matrix + explicit-state exploration of WINDOW_UPDATE schedules",
+    "Upload sizes around window multiples x INITIAL_WINDOW_SIZE x MAX_FRAME_SIZE x chunking (both variants); downloads beyond the client's 16 MiB credit (one 20 MiB body, 1100 x 16 KiB on one connection); on the virtual loop every order of WINDOW_UPDATE events and completions for one and two uploads: no DATA beyond the peer's windows, body intact, END_STREAM once, no stall while both windows are open.",
+    _CONC_NOTE, "DESIGN.md 5 C13")
